@@ -38,7 +38,7 @@ pub const RULE: &str = "one sub-check per builder, random profile-conforming inp
 leading zeros, 0x80 boundaries), names (from key / other key / custom PrintableString CN + serialNumber), whole-second \
 times in years 1..9999 dense at the UTCTime/GeneralizedTime switch 1950/2050, rsync/https URIs with and without trailing \
 slash and beyond 127 octets, resource block lists in any order with overlaps and adjacency (all families, inherit, \
-missing), 0..300 revocation entries unsorted with duplicates, 0..40 manifest files, ROA prefixes with max-length in \
+missing), 0..300 revocation entries unsorted with duplicates, 0..40 (1 in 80: 200..300) manifest files, ROA prefixes with max-length in \
 [len, family max] in any order, 1..16380 distinct providers in any order without the customer, CSR SIA triples, IdCert \
 TA/EE, signed messages with 0..3000 arbitrary content octets. Oracle: decode(encode(built)) succeeds and validates under \
 its issuer (validate_*_at at a time inside the window; Roa/Aspa::process only for windows wide around now), \
@@ -1111,9 +1111,11 @@ fn mft_strategy(_: Tier) -> BoxedStrategy<MftCase> {
             (format!("{}.{}", stem, ext), hash)
         });
     let files = prop_oneof![
-        1 => Just(Vec::new()),
-        6 => prop::collection::vec(file.clone(), 1..8),
-        1 => prop::collection::vec(file, 8..41),
+        10 => Just(Vec::new()),
+        60 => prop::collection::vec(file.clone(), 1..8),
+        10 => prop::collection::vec(file.clone(), 8..41),
+        // past 255 / 256 entries
+        1 => prop::collection::vec(file, 250..300),
     ];
     (ee_strategy(), serial_strategy(), time_strategy(), time_strategy(), files)
         .prop_map(|(ee, number, a, b, mut files)| {
@@ -1147,7 +1149,8 @@ fn run_mft(c: &MftCase, obs: &mut Obs) -> CheckResult {
         0 => "files-0",
         1 => "files-1",
         2..=7 => "files-2..7",
-        _ => "files-8..40",
+        8..=40 => "files-8..40",
+        _ => "files-over-200",
     });
     let signer = ee_signer(&c.ee);
     let built = no_panic("manifest builder", || -> Result<Manifest, Fail> {
